@@ -551,3 +551,235 @@ def c06_jobs(tier, seed):
     for n in (1, 2) + ((3,) if tier != 'quick' else ()):
         J(f'tagname |name|={n}', mode='tagname', n=n)
     return jobs
+
+
+# ---------------------------------------------------------------- C12 uniform, safe dedent
+def c12_doc(p):
+    """unwrap block(s) with free indentation everywhere; returns template. lines: list of (indent_slot, text)"""
+    hs = p['holes']
+    g = lambda name, cls='ind': H(hs.get(name, 0), cls)
+    fixed = p.get('fixed', {})  # fixed indentation strings per slot (concrete part in front of the hole)
+    f = lambda name: fixed.get(name, '')
+    tpl = []
+    for i in range(p.get('pre', 1)):
+        tpl += [f(f'pre{i}'), g(f'pre{i}'), "A%d\n" % i]
+    tpl += [f('tag'), g('tag'), O('m', RX + ' unwrap-block'), "\n", f('w1'), g('w1'), "{\n"]
+    for j, kind in enumerate(p['body']):
+        if kind == 'code':
+            tpl += [f(f'b{j}'), g(f'b{j}'), g(f'b{j}t', 'nb'), "L%d\n" % j]
+        elif kind == 'blank':
+            tpl += [f(f'b{j}'), g(f'b{j}'), "\n"]
+        elif kind == 'ready':  # nested ready default-strategy element (three lines)
+            tpl += [f(f'b{j}'), g(f'b{j}'), O('t', RT), "\n", f(f'b{j}'), "z\n", f(f'b{j}'), g(f'b{j}c'), C('t'), "\n"]
+        elif kind == 'unwrap':  # nested ready unwrap block with two inner lines
+            tpl += [f(f'b{j}'), g(f'b{j}'), O('t', RT + ' unwrap-block'), "\n", f(f'b{j}'), g(f'b{j}w'), "[\n",
+                    f(f'b{j}i'), g(f'b{j}i'), "M0\n", f(f'b{j}i'), g(f'b{j}k'), "M1\n", f(f'b{j}'), "]\n", f(f'b{j}'), g(f'b{j}c'), C('t'), "\n"]
+    tpl += [f('w2'), g('w2'), "}\n", f('ctag'), g('ctag'), C('m'), "\n"]
+    for i in range(p.get('post', 1)):
+        tpl += [f(f'post{i}'), g(f'post{i}'), "B%d\n" % i]
+    return tpl
+
+
+@harness('c12_dedent', covers=['first-inner-deeper-than-tag', 'line-left-of-tag-column', 'line-deeper-than-first', 'tab-indent', 'block-on-first-line',
+                               'nested-unwrap'])
+def c12_dedent(ctx, p):
+    ds, de = [60], [62]
+    cfg = cfg_from(p)
+    src, parts = render(ctx, c12_doc(p), ds, de)
+    B = Blanks(ctx, src, parts)
+    ready, pending, allel = evaluate(src, parts, cfg)
+    mask = extent_mask(len(src), ready)
+    out = ctx.impl.clean(src, ds, de, cfg)
+    # line table of the input: (start, end, bytes)
+    lines = []
+    pos = 0
+    for l in split_lines(src):
+        lines.append((pos, pos + len(l), l))
+        pos += len(l) + 1
+    if lines and lines[-1][2] == [] and isinstance(src[-1], int) and src[-1] == 10:
+        lines.pop()
+    line_of = lambda bpos: next(i for i, (s, e, _) in enumerate(lines) if s <= bpos <= e)
+    # per surviving line: list of column ranges removed by the unwrap blocks around it (statement, per block, original columns)
+    removal = {i: [] for i in range(len(lines))}
+    survive = [not any(mask[k] for k in range(s, e)) and not (e > s and mask[s]) for (s, e, _) in lines]
+    for i, (s, e, l) in enumerate(lines):
+        if e == s and s < len(src) and mask[s - 1 if s > 0 else 0] and False:
+            pass
+    unwraps = [e for e in ready if e['unwrap']]
+    if p.get('pre', 1) == 0:
+        ctx.cover('block-on-first-line')
+    if len(unwraps) > 1:
+        ctx.cover('nested-unwrap')
+    for u in unwraps:
+        tagline = line_of(u['open']['start'])
+        T = B.indent(lines[tagline][2])
+        first = line_of(u['extents'][0][1]) + 1      # line after the opening wrapper line
+        last = line_of(u['extents'][1][0]) - 1       # line before the closing wrapper line
+        inner = [i for i in range(first, last + 1)]
+        if not inner:
+            continue
+        F = B.indent(lines[inner[0]][2])
+        S = max(0, F - T)
+        if S > 0:
+            ctx.cover('first-inner-deeper-than-tag')
+        for o_ in unwraps:
+            # nested blocks: only regular layouts are claimed (the inner tag is indented at least as deep as the outer
+            # body, T_i >= T_o + S_o); for ragged nesting the statement does not fix how the two shifts combine
+            if o_ is not u and o_['open']['start'] < u['open']['start'] and u['close']['end'] <= o_['close']['end']:
+                ot = B.indent(lines[line_of(o_['open']['start'])][2])
+                of = B.indent(lines[line_of(o_['extents'][0][1]) + 1][2])
+                if T < ot + max(0, of - ot):
+                    raise PathAbort()
+        for i in inner:
+            ind = B.indent(lines[i][2])
+            if ind <= T and len(B.strip(lines[i][2])) > 0:
+                ctx.cover('line-left-of-tag-column')
+            if ind > F:
+                ctx.cover('line-deeper-than-first')
+            if ind > T:
+                removal[i].append((T, min(T + S, ind)))
+    if any(isinstance(b, int) and b == 9 or (is_sym(b) and b.get_id() in B.blank_ids) for b in src):
+        cover_if(ctx, 'tab-indent', b_or(b_eq(b, 9) for b in src if not isinstance(b, int) and b.get_id() in B.blank_ids) if ctx.symbolic
+                 else any(b == 9 for b in src))
+    exp_lines = []
+    free = []  # whitespace-only lines: only blanks may go, amount not prescribed
+    for i, (s, e, l) in enumerate(lines):
+        if any(mask[k] for k in range(s, e)) or (s == e and False):
+            continue
+        # a line that is entirely inside a removed extent (also empty lines inside) is gone
+        if s < len(src) and s == e and mask[min(s, len(src) - 1)] and (s == 0 or mask[s - 1]):
+            continue
+        cols = set()
+        for a, b in removal[i]:
+            cols |= set(range(a, b))
+        exp_lines.append([b for k, b in enumerate(l) if k not in cols])
+        free.append(len(B.strip(l)) == 0)
+    got = split_lines(out)
+    if got and got[-1] == []:
+        got.pop()
+    if len(got) != len(exp_lines):
+        raise PathAbort()  # line count differs: blank-line residue is C13's subject, not a dedent question
+    okv = []
+    for g_, x, fr in zip(got, exp_lines, free):
+        if fr:
+            okv.append(len(g_) <= len(x))
+        else:
+            okv.append(len(g_) == len(x) and b_and(same(a, b) for a, b in zip(g_, x)))
+    ctx.check(b_and(okv), f'dedent differs: got {show_lines(got)} expected {show_lines(exp_lines)}',
+              (lambda: 'unwrap-block-on-first-line-wrong-dedent' if all(b != 10 for b in src[1:unwraps[0]['open']['start']]) else 'dedent-mismatch'))
+
+
+def c12_jobs(tier, seed):
+    jobs = []
+    J = lambda label, **p: jobs.append(dict(harness='c12_dedent', label=label, params=p))
+    ind2 = dict(tag='', w1='', b0='  ', b1='  ', b2='  ', w2='', ctag='')
+    ind_nested = dict(tag='  ', w1='  ', b0='    ', b1='    ', b2='    ', w2='  ', ctag='  ')
+    tabs = dict(tag='\t', w1='\t', b0='\t\t', b1='\t\t', b2='\t\t', w2='\t', ctag='\t')
+    hole_sets = [dict(tag=1, b0=2, b1=2), dict(b0=1, b1=3, b2=1), dict(tag=2, b1=2, b0t=1), dict(w1=2, w2=2, b0=2), dict(tag=2, ctag=2, b2=2)]
+    if tier != 'quick':
+        hole_sets += [dict(tag=2, b0=3, b1=3, b2=2), dict(tag=3, b0=2, b1=2, ctag=1), dict(b0=4, b1=4), dict(tag=1, w1=1, b0=2, b1=2, w2=1, ctag=1)]
+    for fname, fixed in (('none', {}), ('2sp', ind2), ('nested2sp', ind_nested), ('tabs', tabs)):
+        for hs in hole_sets:
+            for pre in ((1, 0) if tier != 'quick' or fname in ('none', 'nested2sp') else (1,)):
+                J(f'dedent fixed={fname} pre={pre} holes={hs}', fixed=fixed, holes=hs, body=['code', 'code', 'code'], pre=pre)
+    for body in (['code', 'blank', 'code'], ['code', 'ready', 'code'], ['code', 'unwrap', 'code'], ['unwrap'], ['code', 'code', 'unwrap']):
+        for fname, fixed in (('2sp', ind2), ('nested2sp', ind_nested)):
+            fx = dict(fixed)
+            for j in range(len(body)):
+                fx.setdefault(f'b{j}', fixed.get('b0', ''))
+                fx[f'b{j}i'] = fx[f'b{j}'] + '  '
+            for hs in (dict(tag=1, b0=2), dict(b1=2, b1i=2, b1k=1), dict(b0=1, b0i=2, b0w=1, b2=2)):
+                J(f'dedent body={body} fixed={fname} holes={hs}', fixed=fx, holes=hs, body=body)
+    return jobs
+
+
+# ---------------------------------------------------------------- C13 block-style removal, blank-line residue
+def c13_doc(p):
+    hs = p['holes']
+    g = lambda name, cls='ind': H(hs.get(name, 0), cls)
+    tpl = []
+    if p.get('parent'):
+        tpl += [O('m', PN), "\n"]
+    tpl += [g('a_i'), g('a_t', 'nb'), "A\n"]
+    for i in range(p['b']):
+        tpl += [g(f'bl{i}'), "\n"]
+    tpl += [g('tag_i'), O('m', RX), "\n", g('c_i'), "x", g('c_t', 'nb'), "\n", g('ctag_i'), C('m'), "\n"]
+    for i in range(p['a']):
+        tpl += [g(f'al{i}'), "\n"]
+    if p.get('second'):
+        tpl += [g('m_i'), "M\n"]
+        for i in range(p.get('b2', 0)):
+            tpl += [g(f'b2l{i}'), "\n"]
+        tpl += [g('tag2_i'), O('t', RT), "\n", "y\n", g('ctag2_i'), C('t'), "\n"]
+        for i in range(p.get('a2', 0)):
+            tpl += [g(f'a2l{i}'), "\n"]
+    tpl += [g('z_i'), "B", g('z_t', 'nb')]
+    if p.get('final_nl', 1):
+        tpl += ["\n"]
+    if p.get('parent'):
+        tpl += [C('m'), "\n"]
+    return tpl
+
+
+@harness('c13_block', covers=['no-blank-lines-around', 'blank-before-and-after', 'blank-only-before', 'whitespace-only-blank-line', 'two-blocks'])
+def c13_block(ctx, p):
+    ds, de = [60], [62]
+    cfg = cfg_from(p)
+    src, parts = render(ctx, c13_doc(p), ds, de)
+    B = Blanks(ctx, src, parts)
+    ready, pending, allel = evaluate(src, parts, cfg)
+    mask = extent_mask(len(src), ready)
+    a, b = p['a'], p['b']
+    ctx.cover('no-blank-lines-around' if a == 0 and b == 0 else ('blank-before-and-after' if a and b else 'blank-only-before' if b else 'no-blank-lines-around'))
+    if any(k.startswith(('bl', 'al')) and v for k, v in p['holes'].items()):
+        ctx.cover('whitespace-only-blank-line')
+    if p.get('second'):
+        ctx.cover('two-blocks')
+    out = ctx.impl.clean(src, ds, de, cfg)
+    # 1. surviving non-blank lines, byte for byte incl. indentation, in order, nothing else non-blank
+    in_lines = []
+    pos = 0
+    for l in split_lines(src):
+        if not any(mask[k] for k in range(pos, pos + len(l))) and B.strip(l):
+            in_lines.append(l)
+        pos += len(l) + 1
+    got_all = split_lines(out)
+    got = [l for l in got_all if B.strip(l)]
+    ctx.check(lines_equal(got, in_lines), f'non-blank output lines {show_lines(got)} != surviving input lines {show_lines(in_lines)}', 'line-not-intact')
+    # 2. blank-line residue between the neighbours of each removed block
+    def blanks_between(x, y):
+        """number of whitespace-only lines in the output between the lines with text x.. and y.."""
+        idx = [i for i, l in enumerate(got_all) if B.strip(l)]
+        names = [B.strip(got_all[i]) for i in idx]
+        ix = next(i for i, n_ in zip(idx, names) if n_ and isinstance(n_[-1 if x == 'A' else 0], int) and chr(n_[-1] if x == 'A' else n_[0]) == x)
+        iy = next(i for i, n_ in zip(idx, names) if n_ and isinstance(n_[0], int) and chr(n_[0]) == y)
+        return iy - ix - 1
+    first_next = 'M' if p.get('second') else 'B'
+    exp1 = a + b - (1 if a > 0 and b > 0 else 0)
+    n1 = blanks_between('A', first_next)
+    ctx.check(n1 == exp1, f'{n1} blank lines remain around the removed block, expected a+b-[a>0 and b>0] = {exp1} (b={b} before, a={a} after)', 'blank-line-residue')
+    if p.get('second'):
+        a2, b2 = p.get('a2', 0), p.get('b2', 0)
+        exp2 = a2 + b2 - (1 if a2 > 0 and b2 > 0 else 0)
+        n2 = blanks_between('M', 'B')
+        ctx.check(n2 == exp2, f'{n2} blank lines remain around the second removed block, expected {exp2}', 'blank-line-residue')
+
+
+def c13_jobs(tier, seed):
+    jobs = []
+    J = lambda label, **p: jobs.append(dict(harness='c13_block', label=label, params=p))
+    mx = 3 if tier == 'quick' else 4
+    for a in range(0, mx + 1):
+        for b in range(0, mx + 1):
+            hsets = [dict(tag_i=2, ctag_i=2, c_i=1), dict(bl0=2, al0=2, a_i=1), dict(a_t=1, z_t=1, z_i=2, tag_i=1)]
+            if tier != 'quick':
+                hsets += [dict(bl0=2, bl1=2, al0=1, al1=1), dict(tag_i=2, bl0=1, al0=1, ctag_i=1), dict(a_i=2, tag_i=2, z_i=2)]
+            for hs in hsets:
+                hs = {k: v for k, v in hs.items() if not (k.startswith('bl') and int(k[2:]) >= b) and not (k.startswith('al') and int(k[2:]) >= a)}
+                J(f'block b={b} a={a} holes={hs}', a=a, b=b, holes=hs)
+    for a, b, a2, b2 in [(0, 0, 0, 0), (1, 1, 1, 1), (0, 1, 1, 0), (2, 0, 0, 2), (1, 2, 2, 1)]:
+        J(f'two blocks b={b} a={a} b2={b2} a2={a2}', a=a, b=b, a2=a2, b2=b2, second=1, holes=dict(tag_i=1, tag2_i=1, m_i=2, al0=1))
+    for a, b in [(0, 0), (1, 1), (2, 1), (0, 2)]:
+        J(f'pending parent b={b} a={a}', a=a, b=b, parent=1, holes=dict(tag_i=2, a_i=2, z_i=1))
+        J(f'no final newline b={b} a={a}', a=a, b=b, final_nl=0, holes=dict(z_t=2, z_i=1, al0=1 if a else 0))
+    return jobs
